@@ -114,6 +114,9 @@ def base_cfgs(rng: random.Random, per_op: int) -> List[Dict[str, Any]]:
         for heads in (None, 2):
             out.append({"op": "scaled_dot_product_attention", "batch": rng.choice([[], [2]]), "heads": heads, "seq": rng.choice([2, 4]), "d_head": rng.choice([1, 3]),
                         "mult": rng.choice([0.25, 1.0, 3.0]), "is_causal": rng.random() < 0.5, "mask": None, "dropout_p": None})
+        # attention with dropout (RNG pinned): the (1 - p)^0.5 factor belongs to the ONE shared scale of the fixed group
+        out.append({"op": "scaled_dot_product_attention", "batch": [2], "heads": None, "seq": rng.choice([2, 4]), "d_head": rng.choice([2, 3]),
+                    "mult": rng.choice([0.25, 1.0, 3.0]), "is_causal": False, "mask": None, "dropout_p": rng.choice([0.1, 0.3, 0.5])})
         out.append({"op": "dropout", "p": 0.25, "training": True, "batch": bt, "n": 5})
     return out
 
